@@ -84,6 +84,7 @@ class Boss(Role[Node], Symbol):
     node: Node
     leads: Node = None
     heads: TList[Node] = field(default_factory=list)
+    juniors: TSet[Node] = field(default_factory=set)      # the role declares Desc on its own field AND its role taker (Node.desc) does
 
     def __eq__(self, other):
         return self is other
@@ -154,6 +155,7 @@ Node.parent = Parent(Node, "parent")
 Node.led_by = LedBy(Node, "led_by")
 Boss.leads = Leads(Boss, "leads")
 Boss.heads = Heads(Boss, "heads")
+Boss.juniors = Desc(Boss, "juniors")
 
 
 # family O: one transitive descriptor class attached to fields of two domain classes (C15-a), plus a symmetric
@@ -276,6 +278,28 @@ def _subclasses_of_the_university_model():
     Student.__module__ = Startup.__module__ = __name__
     globals()["Student"], globals()["Startup"] = Student, Startup
     return Student, Startup
+
+
+# family R: a role of a role (Chairman of a CEO of a Person): look-ups through role takers go ONE level deep (known finding C15-g)
+def _role_of_a_role():
+    from test.dataset.university_ontology_like_classes import Company, CEO, HeadOf
+    globals()["Company"], globals()["CEO"] = Company, CEO      # the string annotations below are resolved in this module
+
+    @dataclass
+    class Chairman(Role[CEO], Symbol):
+        ceo: CEO
+        chairs: Company = None
+
+        def __hash__(self):
+            return hash(("chairman", self.ceo))
+
+    @dataclass
+    class Chairs(HeadOf): ...
+
+    Chairman.__module__ = Chairs.__module__ = __name__
+    globals()["Chairman"], globals()["Chairs"] = Chairman, Chairs
+    Chairman.chairs = Chairs(Chairman, "chairs")
+    return Chairman
 
 
 @dataclass
@@ -423,11 +447,13 @@ def families() -> Dict[str, Family]:
         _FAMS["U"] = Family("U", [Company, Person, CEO], {2: "person"}, extra_range={(0, "members"): [2]},
                             max_counts=(3, 3, 2)).analyse()
         _FAMS["N"] = Family("N", [Node, Boss, Twin], {1: "node"}, max_counts=(4, 2, 2),
-                            extra_range={(0, "top"): [2], (0, "a"): [2], (0, "b"): [2], (0, "ab"): [2]}).analyse()
+                            extra_range={(0, "top"): [2], (0, "a"): [2], (0, "b"): [2], (0, "ab"): [2], (0, "anc"): [1]}).analyse()
         _FAMS["O"] = Family("O", [Org, Dept], {}, max_counts=(4, 2)).analyse()
         Student, Startup = _subclasses_of_the_university_model()
         _FAMS["S"] = Family("S", [Company, Person, CEO, Student, Startup], {2: "person"}, extra_range={(0, "members"): [2], (4, "members"): [2]},
                             max_counts=(2, 2, 2, 2, 2)).analyse()
+        Chairman = _role_of_a_role()
+        _FAMS["R"] = Family("R", [Company, Person, CEO, Chairman], {2: "person", 3: "ceo"}).analyse()
         _FAMS["K"] = Family("K", [KOrg, KEmployee, KConsultant, KChair], {3: "consultant"}, max_counts=(3, 2, 2, 2)).analyse()
     return _FAMS
 
@@ -1011,7 +1037,7 @@ def run(tier: str, seed: int, replay=None) -> int:
         "harness/c15.py: schema extraction from the Python classes (descriptor class hierarchy, inverse, TransitiveProperty, role taker), case builders through the public API, canonicaliser (objects and fields numbered)",
         "rustworkx PyDiGraph (out_edges/in_edges return snapshots), CPython list/set",
     ]
-    rep.trusted.append("source pins pins/onto.json (pin set pins/sets/onto.json): the normalised source of the 61 methods the hand models Onto/Closure.v and Onto/Container.v mirror is compared on every run; an edit reopens the correspondence obligation")
+    rep.trusted.append("source pins pins/onto.json (pin set pins/sets/onto.json): the normalised source of the 64 methods the hand models Onto/Closure.v and Onto/Container.v mirror is compared on every run; an edit reopens the correspondence obligation")
     rep.assume = [
         "single-valued fields receive at most one value in the closure (generator rejects other histories); role takers are fixed at construction",
         "container assignment only onto an empty field (assignment onto a non-empty field is retraction, which the graph does not do)",
@@ -1110,6 +1136,10 @@ def run(tier: str, seed: int, replay=None) -> int:
         if (keyed_E_same and only_dup and in_subclass_duplicate_class(d)
                 and any(f.cls == "K_subclass_keys" for f in findings if f.kind == "open")):
             kf_instances["K_subclass_keys"] = kf_instances.get("K_subclass_keys", 0) + 1   # C15-e: graph exactly as the key-level model, only the duplicate
+            continue
+        if (cname in open_names and open_names[cname].cls == "K_role_of_role"
+                and (impl["exc"] or "").startswith("ValueError: cannot find a field for the inverse")):
+            rep.known(open_names[cname])       # the recorded failure: the inverse lives two role takers below the target
             continue
         if (any(op[0].startswith("update_from:") for op in d["ops"]) and (impl["exc"] or "").startswith("RuntimeError: Set changed size during iteration")
                 and any(f.cls == "K_update_live" for f in findings if f.kind == "open")):
